@@ -797,19 +797,20 @@ func scribbleOver(c *mw.Config, with []string) {
 		}
 		return full
 	}
-	origins := over(c.AllowOrigins, with)
+	// first re-use: the next tenant's middleware is built from the same scratch slice
+	origins := over(c.AllowOrigins, []string{"https://tenant-two.example", "https://*.tenant-two.example"})
 	if scribbleMethodsAndHeaders {
 		over(c.AllowMethods, []string{"XSCRIBBLED", "TRACE"})
 		over(c.AllowHeaders, []string{"X-Scribbled"})
 		over(c.ExposeHeaders, []string{"X-Scribbled-Too"})
 	}
 	if len(origins) > 0 {
-		// the next tenant's middleware, built from the same scratch slice
 		func() {
 			defer func() { _ = recover() }()
 			_ = mw.New(mw.Config{AllowOrigins: origins[:1+len(origins)/2], AllowMethods: c.AllowMethods})
 		}()
-		over(origins, []string{"https://scribbled-again.example"})
+		// ... and what finally stays in the caller's memory are origins the first configuration refuses
+		over(origins, with)
 	}
 }
 
